@@ -35,7 +35,7 @@ class FakeProvider:
         from operon_ai.providers import ToolCall
         calls = []
         if self.i < len(self.rounds):
-            calls = [ToolCall(id=f"c{self.i}_{j}", name=c["name"], arguments=dict(c["args"]))
+            calls = [ToolCall(id=c.get("id") or f"c{self.i}_{j}", name=c["name"], arguments=dict(c["args"]))
                      for j, c in enumerate(self.rounds[self.i])]
         self.i += 1
         return self._resp(), calls
@@ -78,7 +78,10 @@ class C03(Check):
         args = {}
         for k in rng.sample(["a", "b", "x"], rng.randint(0, 2)):
             args[k] = rng.choice([1, 2, "s", True])
-        return {"name": n, "args": args}
+        call = {"name": n, "args": args}
+        if rng.random() < 0.25:
+            call["id"] = rng.choice(["x", "x", "y", ""])      # providers may re-use or omit call ids
+        return call
 
     def gen_cases(self, rng, n):
         out = []
@@ -94,6 +97,8 @@ class C03(Check):
                     names.append(nm)
                     beh.setdefault(nm, rng.choice(["const", "const", "nargs", "raise", "none"]))
                     ops.append({"op": "reg", "name": nm, "caps": rng.sample([0, 1, 2, 3], rng.choice([0, 0, 1, 1, 2])),
+                                # declarations may also carry free-form string tags next to enum members
+                                "tags": rng.sample(MC.STRING_TAGS, rng.choice([0, 0, 0, 1, 1, 2])),
                                 "behaviour": beh[nm],
                                 "attr": rng.choice(["required_capabilities", "required_capabilities", "capabilities"])})
                 elif k < 0.55:
@@ -142,7 +147,8 @@ class C03(Check):
         for op in case["ops"]:
             start = len(rec.log)
             if op["op"] == "reg":
-                t = MC.ToolStub(op["name"], rec.capset(op["caps"]), op["behaviour"], rec.log, I, op["attr"])
+                t = MC.ToolStub(op["name"], set(rec.capset(op["caps"])) | set(op.get("tags", [])), op["behaviour"], rec.log, I,
+                                op["attr"])
                 rec.tools.append(t)
                 m.engulf_tool(t)
                 steps.append({"op": "reg"})
@@ -189,7 +195,7 @@ class C03(Check):
             obs.append([-1, code])
             obs += MC.Recorder.trace_obs(sub)
             steps.append({"op": op["op"], "code": code, "raised": repr(raised) if raised else None,
-                          "invoked": [(e[1], sorted(rec.caps.index(c) for c in
+                          "invoked": [(e[1], sorted(MC.cap_code(rec, c) for c in
                                              (getattr(registry.get(e[1]), "required_capabilities", None)
                                               or getattr(registry.get(e[1]), "capabilities", None) or set())))
                                       for e in new if e[0] == "tool"],
